@@ -1,373 +1,7 @@
 // Route S harness: the integrator drivers with the real checkpoint classes (C03 C05 C12 C15 C19 C20 C06)
 //   cfg: alg=0 plain,1 vegas,2 multi_channel; n iterations; cp = calls pattern; d,B,C; user=1 user grid /
 //        weights; dist=1 one 1-d distribution; name = index of distribution name; ob = obligation
-#include "stubs.hpp"
-
-#include "hep/mc/callback.hpp"
-#include "hep/mc/multi_channel.hpp"
-#include "hep/mc/multi_channel_integrand.hpp"
-#include "hep/mc/plain.hpp"
-#include "hep/mc/vegas.hpp"
-
-#include <cstdio>
-#include <fstream>
-#include <sstream>
-#include <unistd.h>
-
-using sym::H;
-
-static char const* const NAMES[] = {"x", "a b", "", " lead", "trail ", "0 1"};
-
-template <typename T>
-struct world
-{
-    H<T>& h;
-    std::size_t d, B, C;
-    int dist, name_idx, user;
-    sym::run_log<T> log;
-    sym::stub_tables<T> tab;
-    std::vector<sym::map_record<T>> cc, dc;
-    sym::stub_integrand<T> f;
-    sym::stub_channel_map<T> m;
-    // symbolic parameters (created once per path)
-    T alpha, beta, minw;
-    std::vector<T> grid;        // user grid interior boundaries
-    std::vector<T> weights;     // user weights
-    std::vector<bool> wz;
-
-    explicit world(H<T>& hh) : h(hh)
-    {
-        d = h.get("d", 1); B = h.get("B", 2); C = h.get("C", 2);
-        dist = h.get("dist", 0); name_idx = h.get("name", 0); user = h.get("user", 0);
-        f.h = &h; f.log = &log; f.tab = &tab; f.f_kinds = h.get("fk", 2);
-        f.dist_kinds = dist; f.dist_x_symbolic = h.get("dx", 0) != 0;
-        m.h = &h; m.log = &log; m.tab = &tab; m.coord_calls = &cc; m.dens_calls = &dc;
-        m.jac_kinds = h.get("jk", 1);
-        m.density_may_vanish = h.get("pz", 0) != 0;
-        sym::E().conv_cap = static_cast<std::size_t>(h.get("cap", 4));
-    }
-    std::string name() const { return NAMES[name_idx]; }
-};
-
-template <typename Chk>
-struct always_true
-{
-    bool operator()(Chk const&) const { return true; }
-};
-
-// ---- per algorithm glue ------------------------------------------------------------------------
-template <typename T>
-struct plain_alg
-{
-    using chk = hep::plain_chkpt_with_rng<sym::stub_engine, T>;
-    static void params(world<T>&) {}
-    static chk fresh(world<T>&) { return hep::make_plain_chkpt<T>(sym::stub_engine()); }
-    template <typename CB>
-    static chk run(world<T>& w, std::vector<std::size_t> const& calls, chk const& c, CB cb)
-    {
-        if (w.dist)
-            return hep::plain(hep::make_integrand<T>(w.f, w.d, hep::make_dist_params<T>(2, T(0.0), T(1.0), w.name())), calls, c, cb);
-        return hep::plain(hep::make_integrand<T>(w.f, w.d), calls, c, cb);
-    }
-    static chk load(std::istream& in) { return hep::make_plain_chkpt<T, sym::stub_engine>(in); }
-    static std::size_t numbers_per_call(world<T>& w) { return w.d; }
-};
-
-template <typename T>
-struct vegas_alg
-{
-    using chk = hep::vegas_chkpt_with_rng<sym::stub_engine, T>;
-    static void params(world<T>& w)
-    {
-        w.alpha = w.h.input("alpha", 0.0, 3.0);
-        if (w.user)
-        {
-            for (std::size_t i = 0; i != w.d; ++i)
-            {
-                T prev = T(0.0);
-                for (std::size_t b = 1; b != w.B; ++b)
-                {
-                    T g = w.h.input("g", 0.0, 1.0);
-                    w.h.assume(w.h.lt(prev, g));
-                    w.grid.push_back(g);
-                    prev = g;
-                }
-                w.h.assume(w.h.lt(prev, T(1.0)));
-            }
-        }
-    }
-    static hep::vegas_pdf<T> user_pdf(world<T>& w)
-    {
-        hep::vegas_pdf<T> pdf(w.d, w.B);
-        std::size_t k = 0;
-        for (std::size_t i = 0; i != w.d; ++i)
-            for (std::size_t b = 1; b != w.B; ++b) pdf.set_bin_left(i, b, w.grid[k++]);
-        return pdf;
-    }
-    static chk fresh(world<T>& w)
-    {
-        if (w.user) return hep::make_vegas_chkpt<T>(user_pdf(w), w.alpha, sym::stub_engine());
-        // a default checkpoint learns its dimension when the driver starts (chkpt.dimensions(d)); before
-        // that it has no grid and cannot be written
-        chk c = hep::make_vegas_chkpt<T>(w.B, w.alpha, sym::stub_engine());
-        c.dimensions(w.d);
-        return c;
-    }
-    template <typename CB>
-    static chk run(world<T>& w, std::vector<std::size_t> const& calls, chk const& c, CB cb)
-    {
-        if (w.dist)
-            return hep::vegas(hep::make_integrand<T>(w.f, w.d, hep::make_dist_params<T>(2, T(0.0), T(1.0), w.name())), calls, c, cb);
-        return hep::vegas(hep::make_integrand<T>(w.f, w.d), calls, c, cb);
-    }
-    static chk load(std::istream& in) { return hep::make_vegas_chkpt<T, sym::stub_engine>(in); }
-    static std::size_t numbers_per_call(world<T>& w) { return w.d; }
-};
-
-template <typename T>
-struct multi_alg
-{
-    using chk = hep::multi_channel_chkpt_with_rng<sym::stub_engine, T>;
-    static void params(world<T>& w)
-    {
-        w.beta = w.h.input("beta", 0.0, 1.0, true, false);
-        w.minw = w.h.input("min", 0.0, 1.0);
-        w.h.assume(w.h.lt(w.minw * T(w.C), T(1.0)));
-        if (w.user)
-        {
-            bool any = false;
-            w.wz.assign(w.C, false);
-            for (std::size_t i = 0; i != w.C; ++i)
-            {
-                bool z = w.h.choose("weight_is_zero", 2) == 1;
-                if (i + 1 == w.C && !any) z = false;
-                w.wz[i] = z;
-                if (z) w.weights.push_back(T(0.0));
-                else { w.weights.push_back(w.h.input("alpha", 0.0, 10.0, true, false)); any = true; }
-            }
-        }
-    }
-    static chk fresh(world<T>& w)
-    {
-        if (w.user) return hep::make_multi_channel_chkpt<T>(w.weights, w.minw, w.beta, sym::stub_engine());
-        return hep::make_multi_channel_chkpt<T>(w.minw, w.beta, sym::stub_engine());
-    }
-    template <typename CB>
-    static chk run(world<T>& w, std::vector<std::size_t> const& calls, chk const& c, CB cb)
-    {
-        if (w.dist)
-            return hep::multi_channel(hep::make_multi_channel_integrand<T>(w.f, w.d, w.m, w.d, w.C,
-                hep::make_dist_params<T>(2, T(0.0), T(1.0), w.name())), calls, c, cb);
-        return hep::multi_channel(hep::make_multi_channel_integrand<T>(w.f, w.d, w.m, w.d, w.C), calls, c, cb);
-    }
-    static chk load(std::istream& in) { return hep::make_multi_channel_chkpt<T, sym::stub_engine>(in); }
-    static std::size_t numbers_per_call(world<T>& w) { return w.d + 1; }
-};
-
-// ---- text utilities ----------------------------------------------------------------------------
-template <typename Chk>
-static std::string ser(Chk const& c)
-{
-    std::ostringstream o;
-    c.serialize(o);
-    return o.str();
-}
-
-// value behind a real-number token of a serialised text
-template <typename F> struct tokval;
-template <> struct tokval<sym::real>
-{
-    static bool is_token(std::string const& w) { return !w.empty() && w[0] == '@'; }
-    static sym::real get(std::string const& w)
-    {
-        auto const& t = sym::E().tokens.at(std::stoul(w.substr(1)));
-        return t.kind == sym::FIN ? sym::real(sym::E().token_exprs.at(t.ast_index)) : sym::real::special(t.kind);
-    }
-    static bool well_formatted(std::string const& w)
-    {
-        auto const& t = sym::E().tokens.at(std::stoul(w.substr(1)));
-        return t.scientific && t.precision >= std::numeric_limits<sym::real>::max_digits10 - 1;
-    }
-};
-template <typename F> struct tokval
-{
-    static bool is_token(std::string const& w)
-    {
-        return w.find_first_of(".e") != std::string::npos && (std::isdigit(static_cast<unsigned char>(w[0])) || w[0] == '-' || w[0] == '+'
-            || w[0] == 'n' || w[0] == 'i');
-    }
-    static F get(std::string const& w) { try { return static_cast<F>(std::stold(w)); } catch (...) { return std::numeric_limits<F>::quiet_NaN(); } }
-    static bool well_formatted(std::string const& w)
-    {
-        // d.ddddde+XX : max_digits10-1 fractional digits
-        std::size_t p = w.find('.'), e = w.find('e');
-        if (w == "nan" || w == "-nan" || w == "inf" || w == "-inf") return true;
-        return p != std::string::npos && e != std::string::npos &&
-            (e - p - 1) >= static_cast<std::size_t>(std::numeric_limits<F>::max_digits10 - 1);
-    }
-};
-
-// splits a text into lines of words, keeping the line structure (names may contain blanks)
-static std::vector<std::string> words_of(std::string const& text)
-{
-    std::vector<std::string> out;
-    std::string cur;
-    for (char c : text)
-    {
-        if (c == ' ' || c == '\n')
-        {
-            if (!cur.empty()) out.push_back(cur);
-            cur.clear();
-            out.push_back(std::string(1, c));   // separators are part of the comparison
-        }
-        else cur.push_back(c);
-    }
-    if (!cur.empty()) out.push_back(cur);
-    return out;
-}
-
-template <typename T>
-static sym::cond<T> texts_identical(H<T>& h, std::string const& a, std::string const& b)
-{
-    auto wa = words_of(a), wb = words_of(b);
-    if (wa.size() != wb.size())
-    {
-        h.event("texts differ in structure: " + std::to_string(wa.size()) + " vs " + std::to_string(wb.size()));
-        return h.truth(false);
-    }
-    auto c = h.truth(true);
-    for (std::size_t i = 0; i != wa.size(); ++i)
-    {
-        bool ta = tokval<T>::is_token(wa[i]), tb = tokval<T>::is_token(wb[i]);
-        if (ta && tb) c = c && h.same(tokval<T>::get(wa[i]), tokval<T>::get(wb[i]));
-        else if (wa[i] != wb[i])
-        {
-            h.event("texts differ at word " + std::to_string(i) + ": '" + wa[i] + "' vs '" + wb[i] + "'");
-            return h.truth(false);
-        }
-    }
-    return c;
-}
-
-template <typename T>
-static bool all_numbers_well_formatted(std::string const& text)
-{
-    for (auto const& w : words_of(text))
-        if (tokval<T>::is_token(w) && !tokval<T>::well_formatted(w)) return false;
-    return true;
-}
-
-// text -> object; reports stream problems
-template <typename T, typename A>
-static typename A::chk reload(H<T>& h, std::string const& text, std::string const& tag, bool& ok)
-{
-    std::istringstream in(text);
-    typename A::chk c = A::load(in);
-    bool const failed = in.fail();
-    std::string rest;
-    bool leftover = false;
-    if (!failed)
-    {
-        in >> std::ws;
-        leftover = in.peek() != std::istream::traits_type::eof();
-    }
-    ok = !failed && !leftover;
-    if (!ok) h.event(tag + ": reading back " + (failed ? "failed" : "left text unread"));
-    return c;
-}
-
-static std::vector<std::size_t> calls_pattern(long cp, std::size_t n)
-{
-    // cp: 0 -> all 1; 1 -> 1,2,1,2..; 2 -> 2,1,2,1...; 3 -> all 2
-    std::vector<std::size_t> c;
-    for (std::size_t i = 0; i != n; ++i)
-    {
-        std::size_t v = 1;
-        if (cp == 1) v = (i % 2) ? 2 : 1;
-        if (cp == 2) v = (i % 2) ? 1 : 2;
-        if (cp == 3) v = 2;
-        c.push_back(v);
-    }
-    return c;
-}
-
-// ---- field by field comparison (C05) -------------------------------------------------------------
-template <typename T>
-static sym::cond<T> same_mc(H<T>& h, hep::mc_result<T> const& a, hep::mc_result<T> const& b)
-{
-    return h.truth(a.calls() == b.calls() && a.non_zero_calls() == b.non_zero_calls() && a.finite_calls() == b.finite_calls())
-        && h.same(a.sum(), b.sum()) && h.same(a.sum_of_squares(), b.sum_of_squares());
-}
-
-template <typename T>
-static sym::cond<T> same_plain(H<T>& h, hep::plain_result<T> const& a, hep::plain_result<T> const& b)
-{
-    auto c = same_mc<T>(h, a, b) && h.truth(a.distributions().size() == b.distributions().size());
-    for (std::size_t i = 0; i != a.distributions().size() && i != b.distributions().size(); ++i)
-    {
-        auto const& pa = a.distributions()[i].parameters();
-        auto const& pb = b.distributions()[i].parameters();
-        if (pa.name() != pb.name())
-            h.event("distribution name '" + pa.name() + "' read back as '" + pb.name() + "'");
-        c = c && h.truth(pa.bins_x() == pb.bins_x() && pa.bins_y() == pb.bins_y() && pa.name() == pb.name())
-            && h.same(pa.x_min(), pb.x_min()) && h.same(pa.y_min(), pb.y_min())
-            && h.same(pa.bin_size_x(), pb.bin_size_x()) && h.same(pa.bin_size_y(), pb.bin_size_y());
-        auto const& ra = a.distributions()[i].results();
-        auto const& rb = b.distributions()[i].results();
-        c = c && h.truth(ra.size() == rb.size());
-        for (std::size_t k = 0; k != ra.size() && k != rb.size(); ++k) c = c && same_mc<T>(h, ra[k], rb[k]);
-    }
-    return c;
-}
-
-template <typename T>
-static sym::cond<T> same_pdf(H<T>& h, hep::vegas_pdf<T> const& a, hep::vegas_pdf<T> const& b)
-{
-    auto c = h.truth(a.bins() == b.bins() && a.dimensions() == b.dimensions());
-    if (a.bins() != b.bins() || a.dimensions() != b.dimensions()) return c;
-    for (std::size_t i = 0; i != a.dimensions(); ++i)
-        for (std::size_t k = 0; k <= a.bins(); ++k) c = c && h.same(a.bin_left(i, k), b.bin_left(i, k));
-    return c;
-}
-
-template <typename T>
-static sym::cond<T> same_vec(H<T>& h, std::vector<T> const& a, std::vector<T> const& b)
-{
-    auto c = h.truth(a.size() == b.size());
-    for (std::size_t i = 0; i != a.size() && i != b.size(); ++i) c = c && h.same(a[i], b[i]);
-    return c;
-}
-
-template <typename T>
-static sym::cond<T> same_chk(H<T>& h, typename plain_alg<T>::chk const& a, typename plain_alg<T>::chk const& b)
-{
-    auto c = h.truth(a.results().size() == b.results().size() && a.generator() == b.generator());
-    for (std::size_t i = 0; i != a.results().size() && i != b.results().size(); ++i)
-        c = c && same_plain<T>(h, a.results()[i], b.results()[i]);
-    return c;
-}
-template <typename T>
-static sym::cond<T> same_chk(H<T>& h, typename vegas_alg<T>::chk const& a, typename vegas_alg<T>::chk const& b)
-{
-    auto c = h.truth(a.results().size() == b.results().size() && a.generator() == b.generator()) && h.same(a.alpha(), b.alpha());
-    for (std::size_t i = 0; i != a.results().size() && i != b.results().size(); ++i)
-        c = c && same_plain<T>(h, a.results()[i], b.results()[i]) && same_pdf<T>(h, a.results()[i].pdf(), b.results()[i].pdf())
-            && same_vec<T>(h, a.results()[i].adjustment_data(), b.results()[i].adjustment_data());
-    if (a.results().size() == b.results().size()) c = c && same_pdf<T>(h, a.pdf(), b.pdf());
-    return c;
-}
-template <typename T>
-static sym::cond<T> same_chk(H<T>& h, typename multi_alg<T>::chk const& a, typename multi_alg<T>::chk const& b)
-{
-    auto c = h.truth(a.results().size() == b.results().size() && a.generator() == b.generator())
-        && h.same(a.beta(), b.beta()) && h.same(a.min_weight(), b.min_weight());
-    for (std::size_t i = 0; i != a.results().size() && i != b.results().size(); ++i)
-        c = c && same_plain<T>(h, a.results()[i], b.results()[i])
-            && same_vec<T>(h, a.results()[i].adjustment_data(), b.results()[i].adjustment_data())
-            && same_vec<T>(h, a.results()[i].channel_weights(), b.results()[i].channel_weights());
-    if (a.results().size() == b.results().size()) c = c && same_vec<T>(h, a.channel_weights(), b.channel_weights());
-    return c;
-}
+#include "driver_common.hpp"
 
 // ---- ob 0: resume == never stopping (C03), lossless text (C05) ---------------------------------------
 template <typename T, typename A>
@@ -652,53 +286,6 @@ static void ob_modes(H<T>& h)
     h.check("C20|modes.silent_modes_print_nothing", h.truth(printed[0].empty() && printed[1].empty()));
     h.check("C20|modes.verbose_modes_print_one_block_per_iteration", h.truth(!printed[2].empty() && std::count(printed[2].begin(), printed[2].end(), '\n') ==
             std::count(printed[3].begin(), printed[3].end(), '\n')));
-}
-
-// ---- ob 7: state threading (C19) --------------------------------------------------------------------
-template <typename T>
-static void state_checks(H<T>& h, world<T>& w, typename plain_alg<T>::chk const&, std::string const&) { (void) h; (void) w; }
-
-template <typename T>
-static void state_checks(H<T>& h, world<T>& w, typename vegas_alg<T>::chk const& c, std::string const& tag)
-{
-    for (std::size_t k = 0; k != c.results().size(); ++k)
-    {
-        hep::vegas_pdf<T> expected = (k == 0)
-            ? (w.user ? vegas_alg<T>::user_pdf(w) : hep::vegas_pdf<T>(w.d, w.B))
-            : hep::vegas_refine_pdf(c.results()[k - 1].pdf(), w.alpha, c.results()[k - 1].adjustment_data());
-        h.check(k == 0 ? "C19|state.first_iteration_uses_user_or_uniform_grid" + tag
-                       : "C19,C07|state.iteration_uses_refinement_of_previous_result" + tag,
-            same_pdf<T>(h, c.results()[k].pdf(), expected));
-    }
-    h.check("C19|state.alpha_kept" + tag, h.same(c.alpha(), w.alpha));
-}
-
-template <typename T>
-static void state_checks(H<T>& h, world<T>& w, typename multi_alg<T>::chk const& c, std::string const& tag)
-{
-    for (std::size_t k = 0; k != c.results().size(); ++k)
-    {
-        std::vector<T> expected;
-        if (k == 0)
-        {
-            if (w.user)
-                expected = hep::multi_channel_refine_weights(w.weights, std::vector<T>(w.C, T(1.0)), w.minw, w.beta);
-            else
-                expected.assign(w.C, T(1.0) / T(w.C));
-        }
-        else
-            expected = hep::multi_channel_refine_weights(c.results()[k - 1].channel_weights(),
-                c.results()[k - 1].adjustment_data(), w.minw, w.beta);
-        h.check(k == 0 ? "C19|state.first_iteration_uses_normalised_user_or_uniform_weights" + tag
-                       : "C19,C08|state.iteration_uses_refinement_of_previous_result" + tag,
-            same_vec<T>(h, c.results()[k].channel_weights(), expected));
-        // the weights any iteration is run with are a probability vector
-        T s = T();
-        bool fin = true;
-        for (auto const& x : c.results()[k].channel_weights()) { fin = fin && sym::isfinite(x); s += x; }
-        h.check("C01,C08|state.weights_of_every_iteration_are_finite_and_sum_to_one" + tag, h.truth(fin) && h.eq(s, T(1.0)));
-    }
-    h.check("C19|state.beta_and_minimum_weight_kept" + tag, h.same(c.beta(), w.beta) && h.same(c.min_weight(), w.minw));
 }
 
 template <typename T, typename A>
